@@ -15,6 +15,7 @@ import (
 	"net"
 	"os"
 	"path/filepath"
+	"sort"
 	"strings"
 	"sync"
 	"time"
@@ -53,6 +54,7 @@ type World struct {
 	Topics    map[string][]string // client-facing topic string -> level sequence (ground truth)
 	Auth      wasp.AuthenticationHandler
 	Reverse   bool   // the gossip network delivers pending broadcasts newest first
+	Dup       bool   // at-least-once gossip: after every round of deliveries every earlier broadcast is delivered again, newest first
 	MemLog    bool   // nodes use an in-memory message log (race-detector runs)
 	Quiet     bool   // seams do not record (stress runs): only what the driver emits itself
 	AuditDown bool   // the nodes' audit sink is unreachable: every RecordEvent fails (it is a side channel and must not matter)
@@ -802,6 +804,13 @@ func (w *World) Deliver(g *GossipMsg, to int) {
 	w.R.Emit(rec.Ev{"op": "gossip.deliver", "to": to, "mid": g.ID})
 }
 
+// WasSent reports whether broadcast mid has been delivered to node to.
+func (w *World) WasSent(mid, to int) bool {
+	w.mu.Lock()
+	defer w.mu.Unlock()
+	return w.sentTo[[2]int{mid, to}]
+}
+
 func (w *World) Msg(id int) *GossipMsg {
 	w.mu.Lock()
 	defer w.mu.Unlock()
@@ -839,6 +848,22 @@ func (w *World) PumpAll() int {
 		for _, t := range todo {
 			w.Deliver(w.Msg(t[0]), t[1])
 			k++
+		}
+		if w.Dup {
+			// memberlist hands a broadcast out several times: retransmissions of old broadcasts arrive after newer ones
+			w.mu.Lock()
+			all := append([]*GossipMsg{}, w.gossip...)
+			ids := []int{}
+			for id := range w.Nodes {
+				ids = append(ids, id)
+			}
+			w.mu.Unlock()
+			sort.Ints(ids)
+			for i := len(all) - 1; i >= 0; i-- {
+				for _, id := range ids {
+					w.Deliver(all[i], id)
+				}
+			}
 		}
 	}
 }
